@@ -19,7 +19,8 @@ fn case_variant(sfx: &str, v: usize) -> String {
 // the last eight put other number-like things before the ordinal (what one condensing pass does to them must not
 // disturb the next one): a spaced ordinal, a correct ordinal, a decimal, a number ending a sentence, a decade ...
 // ... and the last eight put things BEHIND it: a bare number, a unit, another ordinal, a number after a line break
-const TEMPLATES: [&str; 24] = [
+// ... and the last two make it a possessive
+const TEMPLATES: [&str; 26] = [
     "The {} item.", "{}", "{} place went to her.", "She came in {}.", "On the {}, we left.",
     "Is it the {}?", "(the {} time)", "Ünïcödé 😀 prefix, then the {} one.",
     "The 2 nd entry and then the {} item.", "Pick the 4 th column, the 1st row and the {}", "First the 3rd, then the {} one.",
@@ -27,6 +28,7 @@ const TEMPLATES: [&str; 24] = [
     "The 1 st, 2 nd and 3 rd came before the {} did.",
     "The {} 5 items.", "She came {} 2 times.", "Row {} 13", "He weighed {} 7lb then.", "The {} 1st attempt.", "On the {}\n12 came.", "From the {} 100 were left.",
     "The {} 3.5 per cent.",
+    "On the {}'s agenda we find it.", "It was the {}’s turn.",
 ];
 
 fn one(digits: &str, sfx: &str, variant: usize, tpl: usize, markdown: bool) -> Value {
